@@ -12,6 +12,7 @@ CONSTANTS
     MaxQ = 2
     InsertFirst = FALSE
     WithHold = TRUE
+    EmptyOn = 1
     Hist = FALSE
     Depth = 150
 INVARIANTS EmitSchedule
